@@ -519,6 +519,33 @@ DRV_OP(OpOssDrop, "oss.drop") {
   return json::object();
 }
 
+DRV_OP(OpOssDump, "oss.dump") {
+  auto& w = TheWorld();
+  if (w.schema == nullptr) {
+    ResetWorld();
+  }
+  const OJSON doc = *w.schema;
+  return json{ {"doc", doc.dump()} };
+}
+
+// load an operation-schema document (possibly malformed); documents of the current world stay available to be opened
+DRV_OP(OpOssLoad, "oss.load") {
+  auto& w = TheWorld();
+  if (w.schema == nullptr || a.value("fresh", false)) {
+    ResetWorld();
+  }
+  const auto doc = OJSON::parse(drv::GetBytes(a, "doc"));
+  w.schema.reset();
+  w.schema = std::make_unique<oss::OSSchema>();
+  doc.get_to(*w.schema);
+  w.picts.clear();
+  for (const auto& pict : *w.schema) {
+    w.picts.push_back(pict.uid);
+  }
+  std::sort(w.picts.begin(), w.picts.end());
+  return json{ {"snap", Snapshot()} };
+}
+
 DRV_OP(OpOssOp, "oss.op") {
   auto& w = TheWorld();
   if (w.schema == nullptr) {
